@@ -163,9 +163,15 @@ def FileSrc.consume : FileSrc → FileSrc
   | .stream c _ => .stream c true
   | s => s
 
+/-- `writeMultipartFormFile` sniffs the whole 512-byte buffer `cbuf`, not `cbuf[:size]`: a
+shorter file is sniffed with its NUL padding. -/
+def sniffBuf (content : Str) : Str :=
+  let h := content.take 512
+  h ++ List.replicate (512 - h.length) 0
+
 def filePart (v : Variant) (c : ClientCfg) (f : FileUp) : FilePart :=
   let content := fileContent v f.src
-  ⟨f.param, f.name, if f.ctype = [] then c.detect (content.take 512) else f.ctype, content⟩
+  ⟨f.param, f.name, if f.ctype = [] then c.detect (sniffBuf content) else f.ctype, content⟩
 
 /-- The fields `writeMultiPart` emits: the form map if non-empty, else the ordered pairs. -/
 def multipartFields (st : ReqState) : List (Str × Str) :=
